@@ -174,6 +174,17 @@ CHECKS.update({
         ref='3/C15'),
 })
 
+CHECKS.update({
+    'C07': dict(
+        category='fault_enumeration',
+        technique='property-based scenario generation on a simulated multi-host link plus single-datagram-loss fault enumeration (each generated schedule re-run with datagram k dropped); convergence oracle over browser callbacks and lookups',
+        text=SIM + '2-5 hosts (joining at the start or just before first use), 1-6 services, 1-4 browsers, register/update/unregister/close at generated times, 0-100 ms '
+             'per-receiver delays, optional duplication; each schedule is run without loss and then with one datagram dropped (three targeted k in the quick tier, every k for '
+             'N <= 120 in the thorough tier). After 20 s every active browser must report exactly the registered instances; lookups from Added callbacks must resolve the advertised data.',
+        note='operations on one host are sequential and await the returned broadcast task; same-family address updates only; evaluations counts executed runs',
+        ref='3/C07'),
+})
+
 NOT_YET = {
 }
 
